@@ -828,6 +828,7 @@ func AdoptSession(p Persistence, c *Config) (client *Client, warn []error, fatal
 
 	// storage includes a sequence number
 	storeOrderPerKey := make(map[uint]uint64, len(keys))
+	var storeOrderMax uint64
 
 	// “When a Client reconnects with CleanSession set to 0, both the Client
 	// and Server MUST re-send any unacknowledged PUBLISH Packets (where QoS
@@ -856,6 +857,9 @@ func AdoptSession(p Persistence, c *Config) (client *Client, warn []error, fatal
 		}
 
 		storeOrderPerKey[key] = storageSeqNo
+		if storageSeqNo > storeOrderMax {
+			storeOrderMax = storageSeqNo
+		}
 
 		switch packet[0] >> 4 {
 		case typePUBLISH:
@@ -895,7 +899,10 @@ func AdoptSession(p Persistence, c *Config) (client *Client, warn []error, fatal
 	}
 
 	// instantiate client; newClient normalises the limits in c
-	client = newClient(&ruggedPersistence{Persistence: p}, c)
+	// continue the storage sequence after the records present
+	rugged := &ruggedPersistence{Persistence: p}
+	rugged.seqNo.Store(storeOrderMax)
+	client = newClient(rugged, c)
 	if n := len(publishAtLeastOnceKeys); n > c.AtLeastOnceMax {
 		return nil, warn, fmt.Errorf("mqtt: %d AtLeastOnceMax is less than the %d pending in session", c.AtLeastOnceMax, n)
 	}
